@@ -380,6 +380,13 @@ def evaluate(w):
             w.violation('C19', 'not-done-after-shutdown',
                         'download %d is not done although shutdown returned' % tid)
             continue
+        if evs and oc[2] < evs[0]['stamp']:
+            # result() let the caller go before the download was notified done:
+            # the future "became done" while jobs were still unaccounted for
+            w.violation('C19', 'done-before-all-jobs',
+                        'download %d: result() returned/raised at stamp %d, before the done '
+                        'notification at %d (jobs completed then: %d of %d)'
+                        % (tid, oc[2], evs[0]['stamp'], evs[0]['completed'], evs[0]['submitted']))
         if len(evs) != 1:
             w.violation('C19', 'done-notified-%d-times' % len(evs),
                         'download %d: notify_done called %d times' % (tid, len(evs)))
